@@ -140,7 +140,7 @@ Corollary inflate_never_panics d input :
   | None => True
   end.
 Proof.
-  pose proof (inflate_only_expected_errors d (ast_init (bytes_to_bits input))) as H.
   assert (Hw : wf_ast (ast_init (bytes_to_bits input))) by reflexivity.
-  specialize (H Hw). destruct (run _ _); cbn [res_err]; auto.
+  pose proof (only_elim flate_errs _ _ (inflate_only_expected_errors d) Hw) as H.
+  destruct (run _ _); cbn [res_err]; auto.
 Qed.
